@@ -50,6 +50,24 @@ def make_unitary(t, radix, n):
         return np.eye(dim)[rng.permutation(dim)].astype(complex)
     if k == 'diag':
         return np.diag(np.exp(1j * rng.uniform(-np.pi, np.pi, dim)))
+    if k in ('qperm', 'qperm_local'):
+        # a permutation of the QUDITS, optionally followed by single-qudit
+        # unitaries: cheapest when compiled with a non-identity output
+        # permutation (what permutation-aware synthesis looks for)
+        perm = list(rng.permutation(n))
+        if n >= 2 and perm == sorted(perm):
+            perm = perm[1:] + perm[:1]
+        P = np.zeros((dim, dim), dtype=complex)
+        for x in range(dim):
+            digits = [(x // radix ** (n - 1 - q)) % radix for q in range(n)]
+            y = sum(digits[perm[q]] * radix ** (n - 1 - q) for q in range(n))
+            P[y, x] = 1
+        if k == 'qperm':
+            return P
+        L = np.eye(1, dtype=complex)
+        for q in range(n):
+            L = np.kron(L, specs.haar(radix, t['seed'] + 31 * q + 1))
+        return L @ P
     if k == 'near':
         H = rng.normal(size=(dim, dim)) + 1j * rng.normal(size=(dim, dim))
         H = (H + H.conj().T) / 2
@@ -273,8 +291,31 @@ def cases(draw, quick=True):
     }
 
 
+@st.composite
+def pas_cases(draw, quick=True):
+    """optimization level 4 (permutation-aware synthesis) on small unitaries
+    for which a non-identity output permutation is the cheapest circuit"""
+    n = 2 if quick else draw(st.sampled_from([2, 2, 3]))
+    t = {'type': 'unitary', 'radix': 2, 'n': n,
+         'kind': draw(st.sampled_from(['qperm', 'qperm_local', 'qperm_local',
+                                       'haar'])),
+         'seed': draw(st.integers(0, 10**6)), 'pairs': 0}
+    return {
+        'targets': [t], 'as_list': False, 'model': None,
+        'level': 4, 'mss': 3,
+        'eps': draw(st.sampled_from([1e-8, 1e-10])),
+        'seed': draw(st.integers(0, 10**6)),
+        'nw': draw(st.integers(1, 3)),
+        'sched': draw(cc.schedules),
+        'policy': draw(st.sampled_from([None, 'lazy_recv', 'eager_recv'])),
+        'tier': 'quick' if quick else 'thorough',
+    }
+
+
 def run_shard(ctx: core.Ctx) -> core.ShardResult:
     res = core.ShardResult()
+    core.run_hypothesis(ctx, res, pas_cases(ctx.tier == 'quick'), check,
+                        ctx.n(3, 40), shrink=False, min_cases=2, sub=1)
     core.run_hypothesis(ctx, res, cases(ctx.tier == 'quick'), check,
                         ctx.n(12, 100), shrink=False, min_cases=3)
     return res
